@@ -101,8 +101,7 @@ func (df *DataFile) ReadAt(off int) (e *Entry, err error) {
 
 	// read bucket
 	off += DataEntryHeaderSize
-	bucketBuf := make([]byte, meta.bucketSize)
-	_, err = df.rwManager.ReadAt(bucketBuf, int64(off))
+	bucketBuf, err := df.readPayload(int64(off), meta.bucketSize)
 	if err != nil {
 		return nil, err
 	}
@@ -111,9 +110,7 @@ func (df *DataFile) ReadAt(off int) (e *Entry, err error) {
 
 	// read key
 	off += int(meta.bucketSize)
-	keyBuf := make([]byte, meta.keySize)
-
-	_, err = df.rwManager.ReadAt(keyBuf, int64(off))
+	keyBuf, err := df.readPayload(int64(off), meta.keySize)
 	if err != nil {
 		return nil, err
 	}
@@ -121,8 +118,7 @@ func (df *DataFile) ReadAt(off int) (e *Entry, err error) {
 
 	// read value
 	off += int(meta.keySize)
-	valBuf := make([]byte, meta.valueSize)
-	_, err = df.rwManager.ReadAt(valBuf, int64(off))
+	valBuf, err := df.readPayload(int64(off), meta.valueSize)
 	if err != nil {
 		return nil, err
 	}
@@ -134,6 +130,39 @@ func (df *DataFile) ReadAt(off int) (e *Entry, err error) {
 	}
 
 	return
+}
+
+// payloadChunk bounds the memory readPayload allocates ahead of the data.
+const payloadChunk = 1 << 20
+
+// readPayload reads the n bytes of a bucket name, key or value at off. n comes
+// from a header whose checksum cannot be verified before the payload is read,
+// so it may be garbage (the bytes behind the last record of a file that was
+// being appended to when the process died): memory is allocated as the bytes
+// arrive, never for more than the file holds.
+func (df *DataFile) readPayload(off int64, n uint32) ([]byte, error) {
+	if n <= payloadChunk {
+		buf := make([]byte, n)
+		_, err := df.rwManager.ReadAt(buf, off)
+		return buf, err
+	}
+
+	buf := make([]byte, 0, payloadChunk)
+	for rest := int64(n); rest > 0; {
+		size := int64(payloadChunk)
+		if rest < size {
+			size = rest
+		}
+		part := make([]byte, size)
+		if _, err := df.rwManager.ReadAt(part, off); err != nil {
+			return nil, err
+		}
+		buf = append(buf, part...)
+		off += size
+		rest -= size
+	}
+
+	return buf, nil
 }
 
 // WriteAt copies data to mapped region from the b slice starting at
